@@ -97,7 +97,24 @@ pub fn s3(ctx: &Ctx) {
 
 /// S8: scale - counts that cross 255 / 65535: many point clouds, many points, many packets
 pub fn s8(ctx: &Ctx) {
-    let k = ctx.pick("scale-case", 9 + 10 + 4);
+    let k = ctx.pick("scale-case", 9 + 10 + 4 + 1);
+    if k == 23 {
+        // so many point clouds that the XML section exceeds 10 MiB
+        let n = 21_000usize;
+        let ops = (0..n).map(|i| Op::Cloud(cloud(cat::xyz(cat::F32), 1, 1000 + i as u64))).collect();
+        let p = Program { guid: "g".into(), ops, ..Default::default() };
+        ctx.describe(|| format!("{n} point clouds of one point each (XML section larger than 10 MiB)"));
+        let Some(w) = write_valid(ctx, &p, P) else { return };
+        match crate::harness::guarded(|| e57::E57Reader::new(crate::dev::Dev::new(w.bytes.clone())).map(|r| r.pointclouds().len()).map_err(|e| crate::harness::err_string(&e))) {
+            Ok(Ok(c)) if c == n => {
+                ctx.nontrivial();
+            }
+            Ok(Ok(c)) => ctx.violation(format!("{P}/diff/data3D"), format!("{n} point clouds written, {c} listed")),
+            Ok(Err(e)) => ctx.violation(format!("{P}/own-file-refused/xml-size-limit"), format!("the writer finalized a file with {n} point clouds ({} bytes) successfully, the reader refuses it: {e}", w.bytes.len())),
+            Err(pi) => ctx.violation(format!("{P}/read-panic/{}", pi.class()), format!("reader panicked at {} ({})", pi.loc, pi.msg)),
+        }
+        return;
+    }
     if k >= 19 {
         // bit-packed prototypes, five natural packet capacities + 3 points: full-size packets whose
         // byte streams end in partial bytes carried over to the next packet
